@@ -87,7 +87,14 @@ func encodeWithHTTPCode(_ context.Context, err error) (string, []string, proto.M
 func decodeWithHTTPCode(
 	_ context.Context, cause error, _ string, _ []string, payload proto.Message,
 ) error {
-	wp := payload.(*EncodedHTTPCode)
+	wp, ok := payload.(*EncodedHTTPCode)
+	if !ok {
+		// If this ever happens, this means some version of the library
+		// (presumably future) changed the payload type, and we're
+		// receiving this here. In this case, give up and let
+		// DecodeError use the opaque type.
+		return nil
+	}
 	return &withHTTPCode{cause: cause, code: int(wp.Code)}
 }
 
